@@ -248,6 +248,9 @@ func (smpStateExpect1) startAuthenticate(c *Conversation, question string, mutua
 	if question != "" {
 		s1.msg.hasQuestion = true
 		s1.msg.question = question
+		if len(s1.msg.tlv().tlvValue) > 0xffff {
+			return nil, newOtrError("question does not fit into a TLV")
+		}
 	}
 
 	c.smp.s1 = &s1
